@@ -172,6 +172,17 @@ theorem ready_of_connector7 (sched : List (Move proto7)) (w : World proto7)
   have ta : tag w.a.conn.state = 5 := by rw [h]; rfl
   exact ⟨ra2 ta, ra3 ta⟩
 
+/-- **`Ready` exactly once (0.7)**: a connector that is online has been told `Ready` exactly once -/
+theorem ready_exactly_once7 (sched : List (Move proto7)) (w : World proto7)
+    (hrun : NetSim.run (World.init proto7) sched = some w) (hca : connects .a sched = true)
+    {o t : Nat} {c : Online} (h : w.a.conn.state = .online o t c) : readyCount w.a.events = 1 := by
+  have hm := (ready_of_connector7 sched w hrun hca h).1
+  have hne := readyCount_pos_of_mem hm
+  have hh := run_hs hs7 sched _ w init_hs hrun
+  rcases hh.1.1 with h0 | ⟨h, _⟩
+  · exact absurd h0 hne
+  · exact h
+
 /-! non-vacuity: (1) `a` has just called `connect`, `b` is untouched: six rounds, `a` online and told
 `Ready` once, `b` pending (0.7 acceptors, too, go online with the first chunk packet); (2) `a` is
 online with an unflushed vital chunk, `b` still pending: four rounds, both online, chunk delivered;
